@@ -36,8 +36,9 @@ def apalache(ck):
     if not shutil.which("apalache-mc"):
         ck.cov["apalache"] = {"run": False, "why": "apalache-mc not on PATH"}
         return
-    spec = os.path.join(lib.ROOT, "spec", "apalache")
     out = tempfile.mkdtemp(prefix="verif-apa-")
+    spec = os.path.join(out, "spec")          # Apalache leaves files next to the module: work on a copy
+    shutil.copytree(os.path.join(lib.ROOT, "spec", "apalache"), spec)
     runs = [("UidAlloc", "Init", "IndInv", 0, True), ("UidAlloc", "IndInit", "IndInv", 1, True),
             ("UidAlloc", "IndInit", "NextAboveAll", 0, True), ("UidAlloc", "IndInit", "NeverReusedAct", 1, True),
             ("UidAlloc", "IndInit", "NextNeverDecreasesAct", 1, True),
